@@ -3,10 +3,11 @@
    Imports the executable model only (no Mathlib), so it links as a `lean_exe`. -/
 import Driver.Proto
 import Driver.OpsDates
+import Driver.OpsXml
 open Lean
 
 def dispatchers : List (String → Json → Option (Except String Json)) :=
-  [OpsDates.run]
+  [OpsDates.run, OpsXml.run]
 
 def handle (line : String) : Json :=
   match Json.parse line with
